@@ -41,7 +41,7 @@ U == [i \in 1..15 |->
          [] i = 14 -> [name |-> "raw.dat", dir |-> <<"notes.md">>, ext |-> "dat", size |-> "small", link |-> "none", to |-> 0]
          [] i = 15 -> [name |-> "in.md", dir |-> <<"notes.md">>, ext |-> "md", size |-> "small", link |-> "none", to |-> 0]]
 Ids == 1..15
-Args == {".", "sub", "ln_dir", "drafts", "a.md", "./a.md", "node_modules/x.md", "big.md", "ign.md", "drafts/e.md", "*.md", "**/*.md", "sub/*"}
+Args == {".", "sub", "ln_dir", "drafts", "a.md", "./a.md", "ABS/sub/../a.md", "node_modules/x.md", "big.md", "ign.md", "drafts/e.md", "*.md", "**/*.md", "sub/*"}
 Settings == [extinc : BOOLEAN, excl : BOOLEAN, extexcl : {"none", "base", "path"}, force : BOOLEAN, limit : BOOLEAN, toolign : BOOLEAN]
 
 Target(i) == IF U[i].link = "none" THEN i ELSE U[i].to          \* identity after Path.resolve()
@@ -60,10 +60,10 @@ Filters(i, base) == IncludeOK(i) /\ ~InExcl(i, base) /\ ~ToolIgn(i) /\ ~TooBig(i
 
 \* ---------------- what each argument denotes ----------------
 DirOf(a) == CASE a = "." -> <<>> [] a = "sub" -> <<"sub">> [] a = "ln_dir" -> <<"sub">> [] a = "drafts" -> <<"drafts">>   \* a walk root that is itself an excluded directory name
-FileOf(a) == CASE a = "a.md" -> 1 [] a = "./a.md" -> 1 [] a = "node_modules/x.md" -> 6 [] a = "big.md" -> 3
+FileOf(a) == CASE a = "a.md" -> 1 [] a = "./a.md" -> 1 [] a = "ABS/sub/../a.md" -> 1 [] a = "node_modules/x.md" -> 6 [] a = "big.md" -> 3    \* ABS/..: absolute, not canonical (<tree>/sub/../a.md)
                [] a = "ign.md" -> 5 [] a = "drafts/e.md" -> 9
 IsDirArg(a) == a \in {".", "sub", "ln_dir", "drafts"}
-IsFileArg(a) == a \in {"a.md", "./a.md", "node_modules/x.md", "big.md", "ign.md", "drafts/e.md"}
+IsFileArg(a) == a \in {"a.md", "./a.md", "ABS/sub/../a.md", "node_modules/x.md", "big.md", "ign.md", "drafts/e.md"}
 IsGlobArg(a) == a \in {"*.md", "**/*.md", "sub/*"}
 GlobMatch(a) == CASE a = "*.md" -> {i \in Ids : U[i].dir = <<>> /\ U[i].ext = "md" /\ U[i].link # "dangling"}
                   [] a = "**/*.md" -> {i \in Ids : U[i].ext = "md" /\ U[i].link # "dangling"}
